@@ -87,6 +87,11 @@ int n(int k) { return k; }
             if n <= 300:
                 src3 = ('empty @is_you() {\n    byte[] lm = [%s];\n    write(lm); write(\'|\'); lm[1] = 67; writeln(lm); write(lm.length);\n}\n' % elems)
                 jobs.append(('longlocal_w%d_n%d' % (w, n), src3, [], w, 400 + 2 * n, False, 900000))
+    # a state byte array that straddles the sign boundary of the address word (16-bit: 0x8000): addresses are unsigned
+    for pad in (range(15866, 15882, 2) if ctx.quick else range(15860, 15890)):
+        src = ('int pad[%d];\nbyte[] msg = [115, 116, 114, 97, 100, 100, 108, 101, 10];\nempty @is_you() { pad[0] = 1; write(msg); writeln(12345); writeln(-32768); '
+               'byte[] loc = [108, 111, 99]; writeln(loc); write(msg.length); writeln(pad[0]); }' % pad)
+        jobs.append(('straddle_%d' % pad, src, [], 2, 500, False, 400000))
     # write(bool) of a conversion the typechecker cannot fold: the argument slot is one byte, the value a word (or a length)
     for w in ((2, 3) if ctx.quick else (2, 3, 4)):
         H = 1 << (8 * w - 1)
